@@ -221,6 +221,11 @@ class _Expr(ast.NodeTransformer):
                     return at(ast.UnaryOp(op=ast.Not(), operand=x), node)
                 if (isinstance(op, (ast.NotEq, ast.Gt)) and r.value == 0) or (isinstance(op, ast.GtE) and r.value == 1):
                     return at(ast.UnaryOp(op=ast.Not(), operand=at(ast.UnaryOp(op=ast.Not(), operand=x), node)), node)
+            # x in d.keys() -> x in d
+            if isinstance(op, (ast.In, ast.NotIn)) and isinstance(r, ast.Call) and isinstance(r.func, ast.Attribute) and r.func.attr == 'keys' \
+                    and not r.args and not r.keywords:
+                node.comparators = [r.func.value]
+                r = r.func.value
             # x in [a, b] -> x in (a, b)
             if isinstance(op, (ast.In, ast.NotIn)) and (isinstance(r, ast.List) or (isinstance(r, ast.Set) and
                     all(isinstance(e, ast.Constant) for e in r.elts))) and not any(isinstance(e, ast.Starred) for e in r.elts):
@@ -246,6 +251,10 @@ class _Expr(ast.NodeTransformer):
                 return node
             if f.id == 'bool' and len(node.args) == 1 and not node.keywords and _looks_boolean(node.args[0]):
                 return node.args[0]
+            # set(d.keys()) / sorted(d.keys()) / list(d.keys()) / tuple / frozenset / len -> the same on d
+            if f.id in ('set', 'sorted', 'list', 'tuple', 'frozenset', 'len', 'iter') and len(node.args) >= 1 and isinstance(node.args[0], ast.Call) and \
+                    isinstance(node.args[0].func, ast.Attribute) and node.args[0].func.attr == 'keys' and not node.args[0].args and not node.args[0].keywords:
+                node.args[0] = node.args[0].func.value
             # dict(list(X)) -> dict(X)
             if f.id in ('dict', 'set', 'frozenset', 'sorted', 'tuple') and len(node.args) == 1 and not (f.id == 'dict' and node.keywords) and \
                     isinstance(node.args[0], ast.Call) and isinstance(node.args[0].func, ast.Name) and node.args[0].func.id in ('list', 'tuple') and \
@@ -315,8 +324,11 @@ class _Expr(ast.NodeTransformer):
 
     def visit_comprehension(self, node):
         self.generic_visit(node)
-        # for x in list(X) -> for x in X   (iterating a copy of an iterable is iterating it)
+        # for x in d.keys() -> for x in d
         it = node.iter
+        if isinstance(it, ast.Call) and isinstance(it.func, ast.Attribute) and it.func.attr == 'keys' and not it.args and not it.keywords:
+            node.iter = it = it.func.value
+        # for x in list(X) -> for x in X   (iterating a copy of an iterable is iterating it)
         if isinstance(it, ast.Call) and isinstance(it.func, ast.Name) and it.func.id in ('list', 'tuple', 'iter') and len(it.args) == 1 and not it.keywords:
             node.iter = it.args[0]
         return node
@@ -643,6 +655,9 @@ class FunctionNormalizer(object):
                 if fld == 'iter' and isinstance(new, ast.Call) and isinstance(new.func, ast.Name) and new.func.id == 'iter' \
                         and len(new.args) == 1:
                     new = new.args[0]
+                if fld == 'iter' and isinstance(st, ast.For) and isinstance(new, ast.Call) and isinstance(new.func, ast.Attribute) and \
+                        new.func.attr == 'keys' and not new.args and not new.keywords:
+                    new = new.func.value
                 setattr(st, fld, new)
             elif isinstance(val, list):
                 for k, v in enumerate(val):
